@@ -507,67 +507,102 @@ def r08_7(ctx):
                         k.add("bool")
                     else:
                         k.add("copy")
-        bools = [l for l, k in kinds.items() if F.types[f.locals[l][0]]["s"] == "bool"]
-        depth = [l for l, k in kinds.items() if k == {"add", "sub"}]
-        if len(bools) != 1 or len(depth) != 1 or len(returned) != 1:
-            r.ob("prefix-scan:state", False, f.site, "cannot identify the scanner state by role (escape flags %s, depth counters %s, returned %s)" % ([f.local_name(x) for x in bools], [f.local_name(x) for x in depth], [f.local_name(x) for x in returned]))
+        # the character-class state, by role: the user variable whose every assignment happens under a successful
+        # test of the character against `[` or `]`
+        CH = {"(": "A", ")": "B", "\\": "S", "[": "L", "]": "R"}
+        CODE = {40: "A", 41: "B", 92: "S", 91: "L", 93: "R"}
+
+        def char_tests(p):
+            """{atom letter: bool} for the comparisons of the current character on this path"""
+            out = {}
+            for a, v in p.conds:
+                if a[0] == "bin" and a[1] == "Eq" and a[3][0] == "const" and isinstance(a[3][1], str) and len(a[3][1]) == 1 and a[2][0] != "const":
+                    if a[3][1] in CH:
+                        out[CH[a[3][1]]] = bool(v)
+                elif isinstance(v, int) and not isinstance(v, bool) and v in CODE and a[0] not in ("bin", "call"):
+                    out[CODE[v]] = True  # `match c { '(' => .., _ => .. }`: the arm taken
+                elif isinstance(v, tuple) and v and v[0] == "other" and a[0] not in ("bin", "call") and set(v[1]) & set(CODE):
+                    for code in v[1]:
+                        if code in CODE:
+                            out.setdefault(CODE[code], False)
+            return out
+        under = {}
+        for p in s0.paths(start=h, stops={h}):
+            ct = char_tests(p)
+            for e in p.events:
+                if e[0] == "set" and f.local_name(e[1]) and e[1] in kinds:
+                    under.setdefault(e[1], []).append(bool(ct.get("L") or ct.get("R")))
+        cls = [l for l, u in under.items() if u and all(u) and F.types[f.locals[l][0]]["s"] == "bool"]
+        cls_other = [l for l, u in under.items() if u and all(u) and l not in cls]
+        bools = [l for l, k in kinds.items() if F.types[f.locals[l][0]]["s"] == "bool" and l not in cls]
+        depth = [l for l, k in kinds.items() if k == {"add", "sub"} and l not in cls_other]
+        if len(bools) != 1 or len(depth) != 1 or len(returned) != 1 or len(cls) > 1 or cls_other:
+            r.ob("prefix-scan:state", False, f.site, "cannot identify the scanner state by role (escape flags %s, depth counters %s, class state %s, returned %s)" % ([f.local_name(x) for x in bools], [f.local_name(x) for x in depth], [f.local_name(x) for x in cls + cls_other], [f.local_name(x) for x in returned]))
             return
         we, gl, pl = bools[0], depth[0], returned.pop()
+        cl = cls[0] if cls else None
+        # an unescaped parenthesis inside a character class (`[)]`, `[^)]+`) is a literal: counting it moves the cut
+        # inside a group, the node regex does not compile and every pattern below the node stops answering (D24)
+        r.ob("prefix-scan:character-classes", cl is not None, f.site, "the scanner keeps a character-class state (%s)" % f.local_name(cl) if cl is not None else "the scanner has no character-class state: parentheses inside `[...]` are counted as group delimiters")
         s = Sym(f, copies=True)
         bad = set()
         rows = 0
+
+        def flag_update(v_, l):
+            return v_[1] if v_[0] == "const" else ("not" if v_ == ("un", "Not", ("local", l)) else "same" if v_ == ("local", l) else "?")
+
+        def apply(upd_, old):
+            return old if upd_ in (None, "same") else (not old) if upd_ == "not" else upd_
         for p in s.paths(start=h, stops={h}):
             if p.end[0] != "stop":
                 continue
-            assign = {}
+            assign = char_tests(p)
             z = None
             for a, v in p.conds:
-                if a[0] == "bin" and a[1] == "Eq" and a[3][0] == "const" and isinstance(a[3][1], str) and len(a[3][1]) == 1 and a[2][0] != "const":
-                    c = a[3][1]
-                    if c in "()\\":
-                        assign[{"(": "A", ")": "B", "\\": "S"}[c]] = bool(v)
-                elif isinstance(v, int) and not isinstance(v, bool) and v in (40, 41, 92) and a[0] not in ("bin", "call"):
-                    # `match c { '(' => .., ')' => .., _ => .. }`: the arm taken
-                    for code, k_ in ((40, "A"), (41, "B"), (92, "S")):
-                        if code == v:
-                            assign[k_] = True
-                elif isinstance(v, tuple) and v and v[0] == "other" and a[0] not in ("bin", "call") and set(v[1]) & {40, 41, 92}:
-                    for code, k_ in ((40, "A"), (41, "B"), (92, "S")):
-                        if code in v[1]:
-                            assign[k_] = False
-                elif a == ("local", we):
+                if a == ("local", we):
                     assign["E"] = bool(v)
+                elif cl is not None and a == ("local", cl):
+                    assign["C"] = bool(v)
                 elif a[0] == "bin" and a[1] == "Eq" and a[3] == ("const", 0) and mentions(a[2], lambda x: x == ("local", gl)):
                     z = bool(v)
             lvl = 0
             esc_new = None
+            cls_new = None
             upd = False
             for e in p.events:
                 if e[0] == "set" and e[1] == gl:
                     lvl = 1 if mentions(e[3], lambda x: x[0] == "bin" and x[1].startswith("Add")) else -1 if mentions(e[3], lambda x: x[0] == "bin" and x[1].startswith("Sub")) else 99
                 if e[0] == "set" and e[1] == we:
-                    v_ = e[3]
-                    esc_new = v_[1] if v_[0] == "const" else ("notE" if v_ == ("un", "Not", ("local", we)) else "E" if v_ == ("local", we) else "?")
+                    esc_new = flag_update(e[3], we)
+                if cl is not None and e[0] == "set" and e[1] == cl:
+                    cls_new = flag_update(e[3], cl)
                 if e[0] == "set" and e[1] == pl:
                     upd = True
-            free = [k for k in ("A", "B", "S", "E") if k not in assign]
+            atoms = ("A", "B", "S", "E") + (("L", "R", "C") if cl is not None else ())
+            free = [k for k in atoms if k not in assign]
             for vals in product([False, True], repeat=len(free)):
                 full = dict(assign)
                 full.update(zip(free, vals))
-                if sum(1 for k in ("A", "B", "S") if full[k]) > 1:
+                if sum(1 for k in ("A", "B", "S", "L", "R") if full.get(k)) > 1:
                     continue  # one character
                 rows += 1
-                lvl_ref = 1 if (full["A"] and not full["E"]) else -1 if (full["B"] and not full["E"]) else 0
+                inc = full.get("C", False)
+                lvl_ref = 0 if inc else 1 if (full["A"] and not full["E"]) else -1 if (full["B"] and not full["E"]) else 0
                 esc_ref = full["S"] and not full["E"]
-                esc_got = full["E"] if esc_new in (None, "E") else (not full["E"]) if esc_new == "notE" else esc_new
+                esc_got = apply(esc_new, full["E"])
+                cls_ref = True if (full.get("L") and not full["E"] and not inc) else False if (full.get("R") and not full["E"] and inc) else inc
+                cls_got = apply(cls_new, inc)
+                ch = "(" if full["A"] else ")" if full["B"] else "\\" if full["S"] else "[" if full.get("L") else "]" if full.get("R") else "other"
                 if lvl != lvl_ref:
-                    bad.add("char=%s escaped=%s: depth change %+d (reference %+d)" % ("(" if full["A"] else ")" if full["B"] else "\\" if full["S"] else "other", full["E"], lvl, lvl_ref))
+                    bad.add("char=%s escaped=%s in-class=%s: depth change %+d (reference %+d)" % (ch, full["E"], inc, lvl, lvl_ref))
                 if esc_got != esc_ref:
-                    bad.add("char=%s escaped=%s: next character escaped=%s (reference %s)" % ("\\" if full["S"] else "other", full["E"], esc_got, esc_ref))
+                    bad.add("char=%s escaped=%s: next character escaped=%s (reference %s)" % (ch, full["E"], esc_got, esc_ref))
+                if cl is not None and cls_got != cls_ref:
+                    bad.add("char=%s escaped=%s in-class=%s: class state becomes %s (reference %s)" % (ch, full["E"], inc, cls_got, cls_ref))
                 if z is not None:
-                    upd_ref = z and not esc_ref
-                    if upd != upd_ref and esc_got == esc_ref:
-                        bad.add("depth==0:%s next-escaped=%s: cut position %s (reference %s)" % (z, esc_ref, "advanced" if upd else "kept", "advanced" if upd_ref else "kept"))
+                    upd_ref = z and not esc_ref and not cls_ref
+                    if upd != upd_ref and esc_got == esc_ref and cls_got == cls_ref:
+                        bad.add("depth==0:%s next-escaped=%s in-class=%s: cut position %s (reference %s)" % (z, esc_ref, cls_ref, "advanced" if upd else "kept", "advanced" if upd_ref else "kept"))
                 elif upd:
                     bad.add("cut position advanced without testing the group depth")
         r.ob("prefix-scan:table", not bad and rows >= 16, f.site,
